@@ -79,6 +79,7 @@ func (k *checker) canvasRules() {
 		r.conc1()
 		r.job1()
 		r.seq()
+		r.seq4()
 	}
 	k.axis1(sp, out)
 	c.R.Extra["canvas_parallel_regions"] = len(entries)
@@ -86,6 +87,7 @@ func (k *checker) canvasRules() {
 	c.R.Floor("JOB-1", 8)
 	c.R.Floor("SEQ-2", 2)
 	c.R.Floor("SEQ-3", 2)
+	c.R.Floor("SEQ-4", 2)
 	c.R.Floor("AXIS-1", 10)
 	c.R.Floor("AXIS-2", 8)
 
